@@ -685,6 +685,130 @@ func (in *inliner) inlineGuarded(b *inlBody, callerFile string, call *ast.CallEx
 	return true
 }
 
+// inlineIfInit: `if v, ok := h(a); ok { BODY }` (no else) where h is a new helper of the shape
+//
+//	func h(p …) (T, bool) { PRE…; if c { return <anything>, false }; MID…; return E, true }
+//
+// becomes `{ PRE…; if !(c) { MID…; v := E; BODY } }`: the body runs exactly when the helper reports
+// success, with v bound to its first result. BODY must not mention ok.
+func (in *inliner) inlineIfInit(fd *ast.FuncDecl, s *ast.IfStmt, declOf map[types.Object]*ast.FuncDecl, isNew func(*ast.FuncDecl) bool,
+	helperBody func(*ast.FuncDecl, *ast.CallExpr) (*inlBody, []ast.Expr, bool)) *ast.FuncDecl {
+	init, ok := s.Init.(*ast.AssignStmt)
+	if !ok || s.Else != nil || init.Tok != token.DEFINE || len(init.Lhs) != 2 || len(init.Rhs) != 1 {
+		return nil
+	}
+	vID, ok1 := init.Lhs[0].(*ast.Ident)
+	okID, ok2 := init.Lhs[1].(*ast.Ident)
+	cond, ok3 := ast.Unparen(s.Cond).(*ast.Ident)
+	if !ok1 || !ok2 || !ok3 || cond.Name != okID.Name || okID.Name == "_" {
+		return nil
+	}
+	call, ok := ast.Unparen(init.Rhs[0]).(*ast.CallExpr)
+	if !ok {
+		return nil
+	}
+	hd := declOf[calleeFuncObj(in.info, call)]
+	if hd == nil || hd == fd || !isNew(hd) || hd.Type.Results == nil {
+		return nil
+	}
+	b, args, ok := helperBody(hd, call)
+	if !ok {
+		return nil
+	}
+	locals, ok := in.bodyOK(b)
+	if !ok {
+		return nil
+	}
+	n := len(hd.Body.List)
+	if n < 2 {
+		return nil
+	}
+	final, ok := hd.Body.List[n-1].(*ast.ReturnStmt)
+	if !ok || len(final.Results) != 2 || !isIdentNamed(final.Results[1], "true") {
+		return nil
+	}
+	gi := -1
+	for i, st := range hd.Body.List[:n-1] {
+		if is, ok := st.(*ast.IfStmt); ok && len(returnsOf(is.Body)) > 0 {
+			if gi >= 0 || is.Init != nil || is.Else != nil || len(is.Body.List) != 1 {
+				return nil
+			}
+			rs, ok := is.Body.List[0].(*ast.ReturnStmt)
+			if !ok || len(rs.Results) != 2 || !isIdentNamed(rs.Results[1], "false") {
+				return nil
+			}
+			gi = i
+		} else if len(returnsOf(&ast.BlockStmt{List: []ast.Stmt{st}})) > 0 {
+			return nil
+		}
+	}
+	if gi < 0 {
+		return nil
+	}
+	guard := hd.Body.List[gi].(*ast.IfStmt)
+	// BODY must not mention ok
+	bad := false
+	okObj := in.info.Defs[okID]
+	ast.Inspect(s.Body, func(m ast.Node) bool {
+		if id, ok := m.(*ast.Ident); ok && in.info.Uses[id] == okObj {
+			bad = true
+		}
+		return true
+	})
+	if bad {
+		return nil
+	}
+	callerFile := in.p.Fset.Position(fd.Pos()).Filename
+	pe, ok := in.paramEdits(b, callerFile, args, locals)
+	if !ok || !in.freeVarsVisible(b, call.Pos(), locals) {
+		return nil
+	}
+	es := append(pe, in.renameLocals(b, locals)...)
+	src := in.source(b.file)
+	csrc := in.source(callerFile)
+	if src == nil || csrc == nil {
+		return nil
+	}
+	seg := func(from, to token.Pos) string {
+		lo, hi := in.off(from), in.off(to)
+		if lo > hi || hi > len(src) {
+			return ""
+		}
+		var sub []inlEdit
+		for _, e := range es {
+			if e.off >= lo && e.end <= hi {
+				sub = append(sub, e)
+			}
+		}
+		return applyEdits(src[lo:hi], lo, sub)
+	}
+	pre := seg(hd.Body.Lbrace+1, guard.Pos())
+	condText := seg(guard.Cond.Pos(), guard.Cond.End())
+	mid := seg(guard.End(), final.Pos())
+	val := seg(final.Results[0].Pos(), final.Results[0].End())
+	if condText == "" || val == "" {
+		return nil
+	}
+	// the negated guard in its plain spelling where there is one (x == nil → x != nil)
+	neg := "!(" + condText + ")"
+	if be, ok := ast.Unparen(guard.Cond).(*ast.BinaryExpr); ok {
+		flip := map[token.Token]string{token.EQL: "!=", token.NEQ: "==", token.LSS: ">=", token.GEQ: "<", token.GTR: "<=", token.LEQ: ">"}
+		if op, ok := flip[be.Op]; ok {
+			neg = seg(be.X.Pos(), be.X.End()) + " " + op + " " + seg(be.Y.Pos(), be.Y.End())
+		}
+	}
+	bodyText := string(csrc[in.off(s.Body.Lbrace)+1 : in.off(s.Body.Rbrace)])
+	vdef := ""
+	if vID.Name != "_" {
+		vdef = fmt.Sprintf("%s := %s; _ = %s", vID.Name, val, vID.Name)
+	}
+	text := fmt.Sprintf("{\n//line %s:%d\n%s\nif %s {%s\n%s\n//line %s:%d\n%s}\n}\n//line %s:%d\n",
+		b.file, in.line(hd.Body.Lbrace), pre, neg, mid, vdef, callerFile, in.line(s.Body.Lbrace), bodyText, callerFile, in.line(s.End()))
+	in.edits[callerFile] = append(in.edits[callerFile], inlEdit{in.off(s.Pos()), in.off(s.End()), text})
+	in.notes = append(in.notes, fmt.Sprintf("%s (value, ok) inlined at %s:%d", b.name, relName(in.p, callerFile), in.line(s.Pos())))
+	return hd
+}
+
 // inlineNilWrapper: `out.F = h(a)` where h is a new helper of the shape
 //
 //	func h(p T) U { if p == nil { return nil }; return E }
@@ -1103,6 +1227,11 @@ func (p *Program) inlineOverlay() (map[string][]byte, []string) {
 						continue
 					}
 					switch s := st.(type) {
+					case *ast.IfStmt:
+						if hd := in.inlineIfInit(fd, s, declOf, isNewHelper, helperBody); hd != nil {
+							done[st] = true
+							inlinedCalls[hd]++
+						}
 					case *ast.ExprStmt:
 						call, ok := s.X.(*ast.CallExpr)
 						if !ok {
